@@ -11,7 +11,10 @@
      M id key msg                  HMAC-SM3 (spec; model too)
      K id pw salt iter dklen       PBKDF2-HMAC-SM3 (spec; model too when iter <= 2)
      X id digest len tail p        white box: internal state set, then Write(p), Sum(nil)
-     A id ops                      white box: history with the overlap flag after every Write *)
+     A id ops                      white box: history with the overlap flag after every Write
+     B id -                        marshalable flag of the hash (false for sm3)
+     F id secret label seed n      gmtls prf12(sm3.New): the op-level model prf12_sm3_ops
+     C id key recs                 gmtls macSM3 / tls10MAC.MAC on one object: tls10MAC_run *)
 open Sm3_model
 open Conv
 
@@ -111,6 +114,24 @@ let max_model_stream = 4 * 1024 * 1024
 let handle (f : string array) : string =
   match f.(0) with
   | "I" -> Printf.sprintf "ok %d %d" (int_of_nat size) (int_of_nat blockSize)
+  | "B" -> if sm3_marshalable then "ok 1 1" else "ok 0 0"
+  | "F" ->
+    let n = int_of_string f.(5) in
+    (match prf12_sm3_ops (nat_of_int n) (nat_of_int n) (bytes_of_hex f.(2)) (bytes_of_hex f.(3)) (bytes_of_hex f.(4)) with
+     | Ok b -> "ok " ^ (if b = [] then "-" else hexn b)
+     | Err _ -> "err" | Panic -> "PANIC" | Hang -> "HANG")
+  | "C" ->
+    (match macSM3 (bytes_of_hex f.(2)) with
+     | Ok h ->
+       let recs = List.map (fun r ->
+         match String.split_on_char ':' r with
+         | [sq; hd; dt; ex] ->
+           (((bytes_of_hex sq, bytes_of_hex hd), bytes_of_hex dt), (if ex = "~" then None else Some (bytes_of_hex ex)))
+         | _ -> failwith "bad record") (split_list f.(3)) in
+       let outs = List.map (fun o -> match o with Ok b -> hexn b | Err _ -> "err" | Panic -> "PANIC" | Hang -> "HANG")
+                    (tls10MAC_run h recs) in
+       (match crash outs with Some c -> c | None -> "ok " ^ String.concat "," outs)
+     | Err _ -> "err" | Panic -> "PANIC" | Hang -> "HANG")
   | "H" ->
     let rec go s ops acc =
       match ops with
